@@ -182,6 +182,17 @@ def check_ds(ctx, rng):
         out = dns.dnssec.make_ds_rdataset((mk(owner), rds), {"SHA256", "SHA384"})
         if {(int(d.digest_type), d.digest) for d in out} != {(2, RD.ds_digest(owner, rdata, 2)), (4, RD.ds_digest(owner, rdata, 4))}:
             ctx.violation("ds-rdataset-differs", f"owner={owner!r}", case)
+        # "make a DS record set": the set and every record in it are of type DS (CDS is what make_cds_rdataset is for),
+        # and the CDS -> DS conversion gives DS records too
+        ctx.count("mon.ds_rdataset_type")
+        if int(out.rdtype) != 43 or any(int(d.rdtype) != 43 for d in out):
+            ctx.violation("make_ds_rdataset-returns-other-type", f"rdataset type {int(out.rdtype)}, records {sorted({int(d.rdtype) for d in out})}", case)
+        cds_set = dns.dnssec.dnskey_rdataset_to_cds_rdataset(mk(owner), rds, "SHA256")
+        if int(cds_set.rdtype) != 59 or any(int(d.rdtype) != 59 for d in cds_set):
+            ctx.violation("dnskey_rdataset_to_cds_rdataset-returns-other-type", f"rdataset type {int(cds_set.rdtype)}", case)
+        back = dns.dnssec.make_ds_rdataset((mk(owner), cds_set), {"SHA256"})
+        if int(back.rdtype) != 43 or any(int(d.rdtype) != 43 for d in back) or {d.digest for d in back} != {RD.ds_digest(owner, rdata, 2)}:
+            ctx.violation("ds-from-cds-rdataset-wrong", f"rdataset type {int(back.rdtype)}", case)
         ctx.seen(("ds", alg, len(key) % 2, len(owner)))
     except Exception as e:
         ctx.violation("ds-raised:" + core.exc_sig(e), f"rdata={rdata.hex()}: {e!r}", case)
@@ -246,6 +257,16 @@ def check_zone(ctx, rng):
                 ctx.violation(f"zonemd-digest-differs:{'relativized' if relativize else 'absolute'}:several-rrsig-sets-per-name", f"alg={alg}", dict(case, text=GZ.mz_to_text(mzs)))
         # NSEC chain through sign_zone with a recording signer (versioned zone: sign_zone needs a writer)
         vz = GZ.build_lib_zone(mz, relativize, zone_factory=dns.versioned.Zone)
+        if rng.random() < 0.3:
+            # a plain zone that also holds nodes without any data (what find_node(create=True) leaves behind): they own nothing,
+            # so they are no part of the chain
+            vz = GZ.build_lib_zone(mz, relativize)
+            present = {tuple(RN.fold(l) for l in e) for e, _s in mz.nodes.values()}
+            cands = [tuple(e[1:]) for e, _s in mz.nodes.values() if len(e) > len(mz.origin) + 1] + [(GN.simple_label(rng),) + tuple(mz.origin) for _ in range(2)]
+            for c in cands[: rng.randint(1, 3)]:
+                if tuple(RN.fold(l) for l in c) not in present and RN.fits(c):
+                    vz.find_node(GZ.lib_name(c, mz.origin, relativize), create=True)
+                    ctx.count("mon.zones_with_dataless_nodes")
         seen = []
 
         def signer(txn, rrset):
